@@ -119,6 +119,13 @@ def checker(ctx, world):
                 continue
             inner = e.fn
             clo, pre, prekw = ev.as_closure(inner.args[0]) if inner.args else (None, None, None)
+            if clo is None and inner.args and inner.args[0].op == "call":
+                # the derivative closure comes out of a factory: jvp_of(f) / vjp_of(f) -> the function it returns
+                made = ev.inline(inner.args[0])
+                while made is not None and made.op == "seq":
+                    made = made.value
+                if made is not None:
+                    clo, pre, prekw = ev.as_closure(made)
             if clo is None or pre or prekw:
                 continue
             xs, vs = T("sym", name="x", role="param"), T("sym", name="v", role="param")
